@@ -93,10 +93,21 @@ fn rec_json(r: &Rec, c: &Clock) -> Value {
                    "p": event.contains_padding, "bp": bypass, "rp": replace})
         }
         Rec::Action { client, action, time } => {
-            json!({"k": "act", "c": client, "t": c.us(*time), "a": act_json(action, c)})
+            json!({"k": "act", "c": client, "t": c.us(*time), "a": act_json(action, c),
+                   "fa": verif_harness::render::act_json(action)})
         }
         Rec::Fired { client, machine, time, what } => {
             json!({"k": "fired", "c": client, "m": machine, "t": c.us(*time), "w": what})
+        }
+        Rec::Framework { client, time, event, steps, snapshot } => {
+            // the embedded framework's own hook lines, in the format of Framework.tla
+            let mut g = verif_harness::render::Gaps::default();
+            let lines: Vec<Value> = steps.iter().filter_map(|r| verif_harness::render::render(r, &mut g)).collect();
+            let snap = verif_harness::render::snap_json(snapshot, &mut g);
+            let exact = snapshot.blocking_duration.subsec_nanos() % 1000 == 0;
+            json!({"k": "fw", "c": client, "t": time.duration_since(c.base).as_micros() as u64,
+                   "ev": verif_harness::render::trigger_json(event), "lines": lines, "snap": snap,
+                   "gaps": g.0, "exact": exact && time.duration_since(c.base).subsec_nanos() % 1000 == 0})
         }
         Rec::Pick { what, client } => json!({"k": "pick", "w": what, "c": client}),
         Rec::BlockSet { client, until, bypassable, updated } => json!({
@@ -194,7 +205,7 @@ struct Scenario {
     pps: Option<usize>,
     mc: Vec<MMachine>,
     ms: Vec<MMachine>,
-    fracs: [f64; 4],
+    fracs: [(i64, i64); 4],
     seed: u64,
     cont: bool,
     max_it: usize,
@@ -235,10 +246,10 @@ fn run(
     args.only_client_events = oc;
     args.max_sim_iterations = sc.max_it;
     args.continue_after_all_normal_packets_processed = sc.cont;
-    args.max_padding_frac_client = sc.fracs[0];
-    args.max_blocking_frac_client = sc.fracs[1];
-    args.max_padding_frac_server = sc.fracs[2];
-    args.max_blocking_frac_server = sc.fracs[3];
+    args.max_padding_frac_client = frac(sc.fracs[0]);
+    args.max_blocking_frac_client = frac(sc.fracs[1]);
+    args.max_padding_frac_server = frac(sc.fracs[2]);
+    args.max_blocking_frac_server = frac(sc.fracs[3]);
     args.insecure_rng_seed = Some(sc.seed);
     // the simulation runs in its own thread (the hook log is thread-local): a run that
     // never returns is recorded as a hang instead of stalling the driver
@@ -305,12 +316,11 @@ fn random_scenario(g: &mut GRng, id: u64, seed: u64, max_packets: usize, no_mach
         };
         let mc = gen_side(g);
         let ms = gen_side(g);
-        let fr = |g: &mut GRng| frac(gen_frac(g));
         let sc = Scenario {
             trace,
             delay_us,
             pps,
-            fracs: if no_machines { [0.0; 4] } else { [fr(g), fr(g), fr(g), fr(g)] },
+            fracs: if no_machines { [(0, 1); 4] } else { [gen_frac(g), gen_frac(g), gen_frac(g), gen_frac(g)] },
             seed: seed.wrapping_mul(31).wrapping_add(id),
             cont: g.gen_bool(0.4),
             max_it: *[400usize, 2000].get(g.gen_range(0..2)).unwrap(),
@@ -363,7 +373,7 @@ fn directed(seed: u64) -> Vec<Scenario> {
             pps: None,
             mc: if client { machines.clone() } else { vec![] },
             ms: if client { vec![] } else { machines },
-            fracs: [0.0; 4],
+            fracs: [(0, 1); 4],
             seed: seed.wrapping_add(id),
             cont,
             max_it: 300,
@@ -457,7 +467,7 @@ fn directed(seed: u64) -> Vec<Scenario> {
                                 pps: None,
                                 mc: if mirror { b.clone() } else { a.clone() },
                                 ms: if mirror { a } else { b },
-                                fracs: [0.0; 4],
+                                fracs: [(0, 1); 4],
                                 seed: seed.wrapping_add(id),
                                 cont: true,
                                 max_it: 300,
@@ -501,6 +511,9 @@ fn main() {
         }
     }
     let mut n_hang = 0u64;
+    let mut n_fw = 0u64;
+    // --fw-out: also write the embedded frameworks' traces (composition with Framework.tla)
+    let mut fw_out = arg(&args, "--fw-out").map(|p| std::io::BufWriter::new(std::fs::File::create(p).unwrap()));
     for (id, (sc, light)) in list.into_iter().enumerate() {
         let id = id as u64;
         if n_hang >= 4 {
@@ -528,7 +541,55 @@ fn main() {
                 subus |= sub;
                 n_ev += hook.iter().filter(|l| l["k"] == "ev").count() as u64;
                 n_act += hook.iter().filter(|l| l["k"] == "act").count() as u64;
-                lines.extend(hook);
+                if let Some(fwf) = fw_out.as_mut() {
+                    // per side: the embedded framework's calls as a FrameworkTrace scenario
+                    for client in [true, false] {
+                        let ms = if client { &sc.mc } else { &sc.ms };
+                        if ms.is_empty() {
+                            continue;
+                        }
+                        // blocking shares are f64 divisions of std::time durations in this setting:
+                        // only sides without blocking fractions are compared with the exact model
+                        if sc.fracs[if client { 1 } else { 3 }].0 != 0 || ms.iter().any(|m| m.blockFrac.0 != 0) {
+                            continue;
+                        }
+                        let conf = MConf {
+                            M: ms.clone(),
+                            fwPad: sc.fracs[if client { 0 } else { 2 }],
+                            fwBlk: sc.fracs[if client { 1 } else { 3 }],
+                        };
+                        let limits: Vec<i64> = ms
+                            .iter()
+                            .map(|m| {
+                                let a = &m.states[0].action;
+                                if a.kind == "None" { 0 } else if a.has_limit() { a.limit.vals.first().copied().unwrap_or(-1) } else { -1 }
+                            })
+                            .collect();
+                        let mut out = vec![json!({"k": "reset", "id": id * 2 + client as u64}),
+                                           json!({"k": "new", "C": serde_json::to_value(&conf).unwrap(), "limits": limits})];
+                        let mut acts: Vec<Value> = vec![];
+                        let mut ok = true;
+                        for h in hook.iter() {
+                            if h["k"] == "act" && h["c"] == client {
+                                acts.push(h["fa"].clone());
+                            }
+                            if h["k"] == "fw" && h["c"] == client {
+                                ok &= h["exact"].as_bool().unwrap_or(false) && h["gaps"] == 0;
+                                out.push(json!({"k": "call", "t": h["t"], "evs": [h["ev"]]}));
+                                out.extend(h["lines"].as_array().unwrap().iter().cloned());
+                                out.push(json!({"k": "ret", "acts": acts, "snap": h["snap"]}));
+                                acts = vec![];
+                            }
+                        }
+                        if ok {
+                            for l in &out {
+                                writeln!(fwf, "{}", l).unwrap();
+                            }
+                            n_fw += 1;
+                        }
+                    }
+                }
+                lines.extend(hook.into_iter().filter(|h| h["k"] != "fw"));
                 lines.push(json!({"k": "out", "evs": full}));
                 // the same run again: reproducible?
                 if !light {
@@ -589,10 +650,13 @@ fn main() {
         n_written += 1;
     }
     f.flush().unwrap();
+    if let Some(fwf) = fw_out.as_mut() {
+        fwf.flush().unwrap();
+    }
     println!(
         "{}",
         json!({"scenarios": scenarios, "written": n_written, "events": n_ev, "actions": n_act,
-               "panics": n_panic, "sub_microsecond_skipped": n_subus, "directed": n_directed, "hangs": n_hang})
+               "panics": n_panic, "sub_microsecond_skipped": n_subus, "directed": n_directed, "hangs": n_hang, "framework_traces": n_fw})
     );
     // threads stuck in a simulation are abandoned
     std::process::exit(0);
